@@ -6,6 +6,7 @@ From Coq Require Import NArith ZArith List Bool Lia.
 From NV Require Import Base.Bytes Isa.Codec Runtime.DynArray Runtime.DynArrayProofs Runtime.Gc Runtime.GcProofs gen.RtParams.
 From NV Require Import Runtime.FmtSb Runtime.FmtSbProofs gen.FmtSbParams.
 From NV Require Import Runtime.ListRt Runtime.ListRtProofs gen.ListParams.
+From NV Require Import Runtime.HashMapRt Runtime.HashMapRtProofs gen.HashMapParams.
 Import ListNotations.
 
 (* the measured constants satisfy what the proofs need: INITIAL_CAPACITY >= 1, GROWTH_FACTOR >= 2, the built-in element sizes fit the
@@ -345,3 +346,72 @@ Example C20_list_nonvacuous :
   | _ => false
   end = true.
 Proof. vm_compute. reflexivity. Qed.
+
+(* ====================================================================== the emitted HashMap<K,V> (open addressing, tombstones)
+   [hm_params] = NV.gen.HashMapParams.hm_params: initial capacity, load factor, growth, minimum capacity, the constants of the two hash
+   functions and the SHAPE of the tombstone branch of nl_hashmap_<K>_<V>_find_slot, all read by tools/gen/gen_hashmap.py from the text
+   the compiler under test emits (nanoc -S) for the four instantiations, on every run. *)
+
+(* the emitted text is the one the proofs below are about: the nested tombstone branch, 16 slots, rehash to twice the capacity at
+   (size + tombstones) / capacity >= 7/10, never fewer than 8 slots *)
+Theorem C20_hm_params_good : hgood hm_params.
+Proof. vm_compute. repeat split; reflexivity. Qed.
+Print Assumptions C20_hm_params_good.
+
+(* NO ACCESS TO A FREED KEY.  [compared] lists the slots whose key field the probe loop hands to the comparison.  With the emitted
+   tombstone branch every one of them is a live entry: the key of a removed entry (free()d by map_remove for string keys) is never
+   read again, whatever the table looks like (no invariant needed) *)
+Theorem C20_hm_no_freed_key_access : forall es k idxs first_tomb,
+  Forall (fun i => exists k' v, nth i es Empty = Live k' v) (compared (hp_shape hm_params) es k idxs first_tomb).
+Proof. exact (fun es k => compared_nested_live es k). Qed.
+Print Assumptions C20_hm_no_freed_key_access.
+
+(* ... and the model's crash outcome of the loop is exactly "a tombstone's key was compared", for every shape of the branch *)
+Theorem C20_hm_freed_iff_tombstone_compared : forall sh es k idxs first_tomb,
+  scan sh es k idxs first_tomb = FFreed <-> exists i k', In i (compared sh es k idxs first_tomb) /\ nth i es Empty = Tomb k'.
+Proof. exact (fun sh es k => scan_freed_compared es k sh). Qed.
+Print Assumptions C20_hm_freed_iff_tombstone_compared.
+
+Theorem C20_hm_never_crashes : forall m o, hstep hm_params m o <> HCrash.
+Proof. exact (fun m o => nested_never_crashes hm_params m o (proj1 C20_hm_params_good)). Qed.
+Print Assumptions C20_hm_never_crashes.
+
+(* hm_refines_map: put / has / get / remove / length / clear agree with the association list, step by step; the relation [R] carries
+   the invariant (distinct live keys, every live key reachable from its home slot without crossing an empty slot, exact size and
+   tombstone counters, at least one empty slot) and is re-established by every operation, rehash included *)
+Theorem C20_hm_refines_map : forall m l o, R hm_params m l ->
+  exists m', hstep hm_params m o = HOk m' (snd (amstep l o)) /\ R hm_params m' (fst (amstep l o)).
+Proof. exact (hstep_refines hm_params C20_hm_params_good). Qed.
+Print Assumptions C20_hm_refines_map.
+
+(* every history on a new map: the outputs are those of the association list, it ends (no crash), the invariant holds at the end *)
+Theorem C20_hm_refines_map_from_new : forall ops,
+  exists m', hrun hm_params (hnew hm_params) ops = (amrun [] ops, HFin m') /\ Inv hm_params m'.
+Proof. exact (hrun_from_new hm_params C20_hm_params_good). Qed.
+Print Assumptions C20_hm_refines_map_from_new.
+
+(* the capacity is a power of two at every point of every history, which is what makes `h & (capacity - 1)` / `(idx + 1) & mask` of the
+   emitted text the `mod capacity` of the model *)
+Theorem C20_hm_cap_pow2 : forall ops xs m', hrun hm_params (hnew hm_params) ops = (xs, HFin m') -> exists e, h_cap m' = 2 ^ e.
+Proof. exact (fun ops xs m' => hrun_cap_pow2 hm_params ops (hnew hm_params) xs m' (ex_intro _ 4 eq_refl)). Qed.
+Print Assumptions C20_hm_cap_pow2.
+Theorem C20_hm_mask_is_mod : forall e k, home hm_params (2 ^ e) k = N.to_nat (hash hm_params k mod 2 ^ N.of_nat e)%N.
+Proof. exact (home_is_mod hm_params). Qed.
+Print Assumptions C20_hm_mask_is_mod.
+
+(* non-vacuity, and what the flattened branch (`if (state == 2 && first_tomb == -1) ... else if (key matches)`) does: three keys of
+   one probe chain (home slot 3 of 16 for the strings "k9" "k30" "k45", home slot 5 for the ints 4 5 9), the first two removed, the
+   third looked up.  The emitted shape answers 1; the flattened shape compares the key of the second tombstone *)
+Example C20_hm_flat_shape_compares_freed_key :
+  let flat := {| hp_shape := Flat; hp_init := hp_init hm_params; hp_load_num := hp_load_num hm_params; hp_load_den := hp_load_den hm_params;
+                 hp_growth := hp_growth hm_params; hp_min := hp_min hm_params; hp_fnv_offset := hp_fnv_offset hm_params;
+                 hp_fnv_prime := hp_fnv_prime hm_params; hp_mix1 := hp_mix1 hm_params; hp_mix2 := hp_mix2 hm_params;
+                 hp_mix_shift := hp_mix_shift hm_params |} in
+  let hist := fun a b c => [HPut a 1; HPut b 2; HPut c 3; HRemove a; HRemove b; HHas c; HGet c; HLength]%N in
+  let s := hist (KStr [107; 57]%N) (KStr [107; 51; 48]%N) (KStr [107; 52; 53]%N) in
+  let i := hist (KInt 4) (KInt 5) (KInt 9) in
+  (map (home hm_params 16) [KStr [107; 57]%N; KStr [107; 51; 48]%N; KStr [107; 52; 53]%N; KInt 4; KInt 5; KInt 9] = [3; 3; 3; 5; 5; 5]) /\
+  fst (hrun hm_params (hnew hm_params) s) = [None; None; None; None; None; Some 1; Some 3; Some 1]%N /\
+  fst (hrun hm_params (hnew hm_params) i) = [None; None; None; None; None; Some 1; Some 3; Some 1]%N /\
+  snd (hrun flat (hnew flat) s) = HCrashed /\ snd (hrun flat (hnew flat) i) = HCrashed.
+Proof. vm_compute. repeat split; reflexivity. Qed.
